@@ -33,8 +33,8 @@ impl C05 {
             n_hdr: scaled(tier.pick(2_000, 50_000), scale),
             // one case per start offset of a long run around the 64 KiB (and, thorough, 96/128 KiB) marks
             n_wrap: tier.pick(800, 3 * 800),
-            n_gen: scaled(tier.pick(20_000, 500_000), scale),
-            n_comp: scaled(tier.pick(8_000, 200_000), scale),
+            n_gen: scaled(tier.pick(20_000, 250_000), scale),
+            n_comp: scaled(tier.pick(8_000, 100_000), scale),
             n_shape: scaled(tier.pick(256, 6_400), scale),
             n_samples: tier.pick(16, 3 * streams::repo_sample_count()),
         }
